@@ -21,6 +21,8 @@ import (
 // ---------------------------------------------------------------------------------------------
 // (a) resolved features of random editions schemas, two constructions against the reference resolver
 
+const kfExtUTF8 = "KF-editions-extension-utf8-not-enforced"
+
 type featureCase struct {
 	Raw       [][]byte
 	OffTarget int      // message-level overrides of features that protoc only allows on files and fields / enums
@@ -123,7 +125,7 @@ func checkFeatures(c featureCase) error {
 	for i, p := range files {
 		pd, err := protodesc.NewFile(p, regs[0])
 		if err != nil {
-			return fmt.Errorf("harness: protodesc.NewFile rejected file %d (%s): %v", i, p.GetName(), err)
+			return fmt.Errorf("protodesc.NewFile rejected file %d (%s) of a valid schema set: %v", i, p.GetName(), err)
 		}
 		bd, err := buildWithBuilder(c.Raw[i], regs[1])
 		if err != nil {
@@ -154,6 +156,23 @@ func checkFeatures(c featureCase) error {
 				if got[k] != w {
 					return fmt.Errorf("%s, file %s: resolved features of %q are %+v, the reference resolver gives %+v (%s)", side.name, p.GetName(), k, got[k], w, want.chain[k])
 				}
+			}
+			enf := enforcement(side.fd)
+			var ekeys []string
+			for k := range enf {
+				ekeys = append(ekeys, k)
+			}
+			sort.Strings(ekeys)
+			for _, k := range ekeys {
+				w := want.structs[k].IsUTF8Validated
+				if enf[k] == w {
+					continue
+				}
+				// registered finding: extensions of editions files are never validated
+				if strings.HasPrefix(k, "ext ") && w && !enf[k] && pbt.ExcludeKnown(kfExtUTF8) {
+					continue
+				}
+				return fmt.Errorf("%s, file %s: UTF-8 validation of %q is %v (internal/strs.EnforceUTF8, what every codec asks), the reference resolver gives utf8_validation %v (%s)", side.name, p.GetName(), k, enf[k], map[bool]string{true: "VERIFY", false: "NONE"}[w], want.chain[k])
 			}
 			for k, w := range want.accessors {
 				g, ok := snap[k]
@@ -206,7 +225,7 @@ func TestFeatures(t *testing.T) {
 		Check:      checkFeatures,
 		NonTrivial: func(c featureCase) bool { f, err := schema.Unmarshal(c.Raw); return err == nil && expect(f).overrides > 0 },
 		Classes:    featureClasses,
-		Quick:      900, Thorough: 12000,
+		Quick:      600, Thorough: 8000,
 	})
 }
 
@@ -218,6 +237,56 @@ func TestFeaturesOffTarget(t *testing.T) {
 		Check:      checkFeatures,
 		NonTrivial: func(c featureCase) bool { return c.OffTarget > 0 },
 		Classes:    featureClasses,
-		Quick:      700, Thorough: 10000,
+		Quick:      450, Thorough: 6000,
 	})
+}
+
+// ---------------------------------------------------------------------------------------------
+// the editions files linked into the binary (descriptors built by generated code at init time)
+
+type linkedFileCase struct{ Path string }
+
+func checkLinkedFile(c linkedFileCase) error {
+	fd, err := protoregistry.GlobalFiles.FindFileByPath(c.Path)
+	if err != nil {
+		return fmt.Errorf("harness: %v", err)
+	}
+	p := protodesc.ToFileDescriptorProto(fd)
+	want := expect([]*fdp{p})
+	snap := descsnap.Of(fd, descsnap.Opts{NoSourceLocations: true})
+	for k, g := range observed(fd) {
+		if w, ok := want.structs[k]; !ok {
+			return fmt.Errorf("harness: no expectation for %q", k)
+		} else if g != w {
+			return fmt.Errorf("linked file %s: resolved features of %q are %+v, the reference resolver gives %+v (%s)", c.Path, k, g, w, want.chain[k])
+		}
+	}
+	for k, w := range want.accessors {
+		if g, ok := snap[k]; ok && g != w {
+			return fmt.Errorf("linked file %s: %s = %s, the reference resolver gives %s (%s)", c.Path, k, g, w, want.chain[k[:strings.IndexByte(k, '#')]])
+		}
+	}
+	return nil
+}
+
+func TestLinkedEditionsFiles(t *testing.T) {
+	n := 0
+	pbt.Enumerate(t, "linked-editions-files",
+		"every editions file registered in protoregistry.GlobalFiles (test protos of /repo, descriptor built by generated code through filedesc.Builder at init time): resolved features and derived accessors of every declaration against the reference resolver run on ToFileDescriptorProto of the file; non-trivial = some declaration below file level overrides a runtime feature",
+		true,
+		func(yield func(linkedFileCase, bool) bool) {
+			for i, fd := range descsnap.LinkedFiles() {
+				if fd.Syntax() != protoreflect.Editions || int64(i)%pbt.NShards != pbt.Shard {
+					continue
+				}
+				n++
+				if !yield(linkedFileCase{Path: fd.Path()}, expect([]*fdp{protodesc.ToFileDescriptorProto(fd)}).overrides > 0) {
+					return
+				}
+			}
+		}, checkLinkedFile)
+	pbt.S.SetExtra("linked_editions_files", n)
+	if pbt.NShards == 1 && n < 10 && !pbt.Skip() {
+		t.Errorf("only %d linked editions files: the corpus is not linked in", n)
+	}
 }
